@@ -611,6 +611,9 @@ pub(crate) use impl_numeric_bound_validator;
 pub trait NumericBound {
     fn upper(&self) -> Option<TokenStream>;
     fn lower(&self) -> Option<TokenStream>;
+
+    /// `true` if at least one of the bounds is exclusive (`greater` or `less`).
+    fn has_exclusive_bound(&self) -> bool;
 }
 
 macro_rules! impl_numeric_bound_on_vec_of {
@@ -662,6 +665,11 @@ macro_rules! impl_numeric_bound_on_vec_of {
                 }
 
                 values.into_iter().next()
+            }
+
+            fn has_exclusive_bound(&self) -> bool {
+                self.iter()
+                    .any(|v| matches!(v, $validator::Greater(_) | $validator::Less(_)))
             }
         }
     }
